@@ -223,7 +223,7 @@ func (vc *VC) decodeInto(a *ssa.Alloc, key string) {
 	vc.havocH(vc.st, "$next")
 	for _, x := range done {
 		t := hs[x.name]
-		if t == nil || strings.HasPrefix(x.name, "HM") {
+		if t == nil || strings.HasPrefix(x.name, "HM") || strings.HasPrefix(x.name, "HA:") {
 			continue // map heaps hold one array per map object: only the frame above is stated
 		}
 		var f string
